@@ -335,6 +335,39 @@ func ruleFlags(c *Ctx) {
 		}
 		return "", false
 	}
+	// a function that reads one flag and asks whether a flag `was given` asks about that same flag (a guard copied from
+	// the neighbouring getter makes --meter depend on --bpm)
+	{
+		readIn := map[*ssa.Function]map[string]bool{}
+		for _, g := range gets {
+			if readIn[g.fn] == nil {
+				readIn[g.fn] = map[string]bool{}
+			}
+			readIn[g.fn][g.name] = true
+		}
+		for _, fn := range m.fns {
+			if len(readIn[fn]) != 1 {
+				continue
+			}
+			own := sortedKeys(readIn[fn])[0]
+			for _, ci := range callsIn(fn) {
+				n := calleeName(ci.Common())
+				if n != pfx+"Changed" && n != pfx+"Lookup" {
+					continue
+				}
+				args := ci.Common().Args
+				if len(args) < 2 {
+					continue
+				}
+				asked, ok := constString(args[1])
+				if !ok {
+					continue
+				}
+				c.site(1)
+				c.check(asked == own, fmt.Sprintf("changed|%s|%q", fname(fn), asked), c.pos(ci.Pos()), fname(fn), fmt.Sprintf("asks whether --%s was given, the flag it reads", own), fmt.Sprintf("%s reads --%s but asks whether --%s was given: the flag is ignored unless the other one is given too", fname(fn), own, asked))
+			}
+		}
+	}
 	for _, g := range gets {
 		c.site(1)
 		key := fmt.Sprintf("%s|Get%s(%q)", fname(g.fn), g.typ, g.name)
